@@ -5,6 +5,7 @@ import (
 	"fmt"
 	"os"
 	"strings"
+	"sync"
 
 	"verifharness/eng"
 	"verifharness/ref"
@@ -225,3 +226,168 @@ const e1Rule = "E1: BFS over product states (configuration of the real generated
 
 // windowTail follows the completion of the current token in the larger buffer of window runs.
 var windowTail = []byte(`5e1"]}:,0 ` + "\x00")
+
+// longRunFamily returns inputs in which a run (string body, key body, white space, integer /
+// fraction / exponent digits) has a length round a power of two (255..65537), is followed by each
+// interesting byte, and is then completed: position-dependent look-ahead windows and block sizes.
+func longRunFamily(thorough bool) [][]byte {
+	lens := []int{255, 256, 257, 1023, 1024, 1025, 4095, 4096, 4097}
+	if thorough {
+		lens = append(lens, 8191, 8192, 8193, 65535, 65536, 65537)
+	}
+	type kind struct{ pre, unit, post string }
+	kinds := []kind{
+		{`"`, "x", `"`}, {`["`, "x", `"]`}, {`{"`, "k", `":1}`}, {`{"a":"`, "v", `"}`}, {`[1,"`, "x", `",2]`}, {`{"a":1,"`, "k", `":2}`},
+		{`[`, " ", `1]`}, {``, "\n", `1`}, {`[1`, " ", `]`}, {`{"a"`, "\t", `:1}`},
+		{`[1`, "0", `]`}, {`[1.`, "5", `]`}, {`[1e`, "0", `1]`}, {`-`, "9", ``},
+	}
+	specials := []string{"", `"`, "\\", "\\\"", "\\n", "\x1f", "\x00", "\x7f", "\xff", ":", "e", ".", ",", "]", "}", " ", "-", "0"}
+	var out [][]byte
+	for _, k := range kinds {
+		for _, L := range lens {
+			run := strings.Repeat(k.unit, L)
+			for _, sp := range specials {
+				out = append(out, []byte(k.pre+run+sp+k.post))
+				out = append(out, []byte(k.pre+run+sp+k.unit+k.unit+k.post))
+			}
+		}
+	}
+	return out
+}
+
+// stringShapeFamily: white space prefix x plain run x escaped quote x plain run, every length
+// 0..9 each, at top level and inside containers.
+func stringShapeFamily() [][]byte {
+	var out [][]byte
+	for i := 0; i <= 9; i++ {
+		for j := 0; j <= 9; j++ {
+			for k := 0; k <= 9; k += 3 {
+				s := strings.Repeat(" ", i) + `"` + strings.Repeat("a", j) + "\\" + `"` + strings.Repeat("b", k) + `"`
+				out = append(out, []byte(s+", 1"), []byte("["+s+"]"), []byte(`{"k":`+s+`}`), []byte(`{`+s+`:1}`))
+			}
+		}
+	}
+	return out
+}
+
+// runFamily evaluates a list of inputs through an E1 check function (no exploration).
+func runFamily(r *eng.Run, name, entry string, inputs [][]byte, check func(w []byte, a *ref.PDA) (string, bool, string, string)) int {
+	for _, in := range inputs {
+		w := eng.Exact(in)
+		a := ref.Run(w)
+		var bad, exp, got string
+		var of bool
+		pan := guard(func() { bad, of, exp, got = check(w, a) })
+		if pan != "" {
+			bad, exp, got = "panic", "returns normally", pan
+		}
+		if of {
+			r.Inexhaustive(fmt.Sprintf("oracle disagreement in family %s: %s", name, bad))
+			continue
+		}
+		if bad != "" {
+			r.Violation(eng.Replay{Engine: "pfx", Entry: entry, Sig: bad + "/" + name + "/" + shortSig(w), InputB64: w, Expected: exp, Got: got})
+		}
+	}
+	r.Add("evaluations", len(inputs))
+	r.Set("family_"+name, len(inputs))
+	return len(inputs)
+}
+
+// pairSpecials: bytes next to which a neighbour matters to word-at-a-time scanners and byte-class
+// tables (controls, quote and backslash and their successors, brackets, DEL, the UTF-8 lead /
+// continuation boundaries).
+var pairSpecials = []byte{0x00, 0x01, 0x08, 0x09, 0x0a, 0x0d, 0x1f, 0x20, 0x21, 0x22, 0x23, 0x2c, 0x2f, 0x3a, 0x5b, 0x5c, 0x5d, 0x7b, 0x7d, 0x7e, 0x7f, 0x80, 0x9f, 0xa0, 0xbf, 0xc0, 0xc2, 0xe0, 0xf0, 0xf4, 0xff}
+
+// bytePairSweep calls f on strings of 20 plain bytes in which two adjacent bytes (b1, b2) sit at
+// offset 0..16, for every pair with at least one special byte, in each context (a context is a
+// prefix / suffix pair round the string token).
+func bytePairSweep(ctxs [][2]string, f func(w []byte)) int {
+	type pair struct{ a, b byte }
+	var pairs []pair
+	isSp := [256]bool{}
+	for _, c := range pairSpecials {
+		isSp[c] = true
+	}
+	for a := 0; a < 256; a++ {
+		for b := 0; b < 256; b++ {
+			if isSp[a] || isSp[b] {
+				pairs = append(pairs, pair{byte(a), byte(b)})
+			}
+		}
+	}
+	n := 0
+	body := make([]byte, 20)
+	for _, pr := range pairs {
+		for pos := 0; pos <= 16; pos++ {
+			for j := range body {
+				body[j] = 'a'
+			}
+			body[pos], body[pos+1] = pr.a, pr.b
+			// the full body, and the body cut right after the pair (the pair next to the closing quote)
+			for _, bd := range [][]byte{body, body[:pos+2]} {
+				for _, cx := range ctxs {
+					w := make([]byte, 0, len(cx[0])+len(bd)+len(cx[1])+2)
+					w = append(w, cx[0]...)
+					w = append(w, '"')
+					w = append(w, bd...)
+					w = append(w, '"')
+					w = append(w, cx[1]...)
+					f(eng.Exact(w))
+				}
+			}
+		}
+	}
+	n = len(pairs) * 17 * 2 * len(ctxs)
+	return n
+}
+
+var pairCtxAll = [][2]string{{"", ""}, {"[", ", 1, 2, 3]"}, {`{"k":`, `,"z":1}`}, {"{", ":1}"}}
+
+// runPairSweep evaluates the byte-pair sweep through an E1 check function.
+func runPairSweep(r *eng.Run, entry string, ctxs [][2]string, check func(w []byte, a *ref.PDA) (string, bool, string, string)) {
+	var mu sync.Mutex
+	n := bytePairSweep(ctxs, func(w []byte) {
+		a := ref.Run(w)
+		var bad, exp, got string
+		var of bool
+		pan := guard(func() { bad, of, exp, got = check(w, a) })
+		if pan != "" {
+			bad, exp, got = "panic", "returns normally", pan
+		}
+		if bad == "" {
+			return
+		}
+		mu.Lock()
+		defer mu.Unlock()
+		if of {
+			r.Inexhaustive("oracle disagreement in the byte-pair sweep: " + bad)
+			return
+		}
+		r.Violation(eng.Replay{Engine: "pfx", Entry: entry, Sig: bad + "/byte-pair/" + shortSig(w), InputB64: w, Expected: exp, Got: got})
+	})
+	r.Add("evaluations", n)
+	r.Set("family_byte_pairs", n)
+}
+
+// depthSiteFamily: every way of opening a level (first / later array element, first / later
+// member value) repeated d-1 times, then every way of opening the last level, then a small
+// container, for d = 1..maxD: every push site of the machines at every stack size a growth
+// policy can distinguish.
+func depthSiteFamily(maxD int) [][]byte {
+	type op struct{ open, close string }
+	ops := []op{{"[", "]"}, {`{"k":`, "}"}, {"[0,", "]"}, {`{"a":0,"k":`, "}"}}
+	var out [][]byte
+	for d := 1; d <= maxD; d++ {
+		for _, outer := range ops {
+			for _, last := range ops {
+				for _, inner := range []string{"[1]", `{"x":1}`} {
+					s := strings.Repeat(outer.open, d-1) + last.open + inner + last.close + strings.Repeat(outer.close, d-1)
+					// bare, and as the value of a member / element of either top-level kind
+					out = append(out, []byte(s), []byte(`{"w":`+s+`}`), []byte(`{"a":0,"w":`+s+`}`), []byte("[0,"+s+"]"))
+				}
+			}
+		}
+	}
+	return out
+}
